@@ -3,8 +3,10 @@ package keeper
 import (
 	"context"
 	"errors"
+	"strconv"
 
 	"cosmossdk.io/collections"
+	sdk "github.com/cosmos/cosmos-sdk/types"
 	sdkerrors "github.com/cosmos/cosmos-sdk/types/errors"
 	"github.com/cosmos/cosmos-sdk/types/query"
 	"google.golang.org/grpc/codes"
@@ -18,13 +20,42 @@ func (q queryServer) ListBid(ctx context.Context, req *types.QueryAllBidRequest)
 		return nil, status.Error(codes.InvalidArgument, "invalid request")
 	}
 
-	bids, pageRes, err := query.CollectionPaginate(
+	// The request selects the bids of one auction, optionally restricted to a bidder and
+	// to matched or unmatched bids.
+	bidder := ""
+	if req.Bidder != "" {
+		bidderAddr, err := sdk.AccAddressFromBech32(req.Bidder)
+		if err != nil {
+			return nil, status.Error(codes.InvalidArgument, "invalid bidder")
+		}
+		bidder = bidderAddr.String()
+	}
+	isMatched := false
+	if req.IsMatched != "" {
+		var err error
+		isMatched, err = strconv.ParseBool(req.IsMatched)
+		if err != nil {
+			return nil, status.Error(codes.InvalidArgument, "invalid is_matched")
+		}
+	}
+
+	bids, pageRes, err := query.CollectionFilteredPaginate(
 		ctx,
 		q.k.Bid,
 		req.Pagination,
+		func(_ collections.Pair[uint64, uint64], bid types.Bid) (bool, error) {
+			if bidder != "" && bid.Bidder != bidder {
+				return false, nil
+			}
+			if req.IsMatched != "" && bid.IsMatched != isMatched {
+				return false, nil
+			}
+			return true, nil
+		},
 		func(_ collections.Pair[uint64, uint64], value types.Bid) (types.Bid, error) {
 			return value, nil
 		},
+		query.WithCollectionPaginationPairPrefix[uint64, uint64](req.AuctionId),
 	)
 	if err != nil {
 		return nil, status.Error(codes.Internal, err.Error())
